@@ -528,7 +528,7 @@ class PatTranslator(TF.FuncTranslator):
                 self.raising(node)      # re.error
                 return self.hoist(node, "re", "(parseRe %s)" % a), RE
             self.bad(node, "call of `%s` is not in the whitelist" % fname)
-        if node.keywords and fname in ("set", "dict", "list", "sorted", "len") or \
+        if node.keywords and fname in ("set", "dict", "list", "len") or \
                 (node.keywords and fname in CALLEES):
             self.bad(node, "keyword arguments")
         if fname == "set" and not node.args:
@@ -544,10 +544,14 @@ class PatTranslator(TF.FuncTranslator):
                 self.bad(node, "list() of a value of type %r" % (ta,))
             return a, ta
         if fname == "sorted" and len(node.args) == 1:
+            # `sorted(xs)`, `sorted(xs, key=len[, reverse=...])`: the same stable sorts as `xs.sort(...)`;
+            # a dict iterates over its keys
             a, ta = self.expr(node.args[0], env)
-            if not (ta[0] == "list" and ta[1] is not None and self.orderable(ta[1])):
+            if ta[0] == "dict":
+                a, ta = "(List.map Prod.fst %s)" % a, LIST(ta[1])
+            if not (ta[0] == "list" and ta[1] is not None):
                 self.bad(node, "sorted() of a value of type %r" % (ta,))
-            return "(PyP.sorted %s)" % a, ta
+            return self.sort_term(a, ta, node.keywords, node, "sorted")
         if fname == "len" and len(node.args) == 1:
             a, ta = self.expr(node.args[0], env)
             if ta == STR or ta[0] in ("list", "set", "dict"):
@@ -779,28 +783,32 @@ class PatTranslator(TF.FuncTranslator):
         lst = env[name]
         if lst.type[0] != "list" or lst.type[1] is None or c.args:
             self.bad(st, "`.sort` on something that is not a list variable")
+        return self.sort_term(lst.lean, lst.type, c.keywords, st, ".sort")
+
+    def sort_term(self, lean, typ_, keywords, st, what):
+        """`xs.sort(**kw)` / `sorted(xs, **kw)` on a list value: (lean, type)"""
         key, reverse = None, False
-        for kw in c.keywords:
+        for kw in keywords:
             if kw.arg == "key":
-                if not (isinstance(kw.value, ast.Name) and kw.value.id == "len" and "len" not in env):
-                    self.bad(st, "`.sort(key=...)`: only `key=len`")
+                if not (isinstance(kw.value, ast.Name) and kw.value.id == "len"):
+                    self.bad(st, "`%s(key=...)`: only `key=len`" % what)
                 key = "len"
             elif kw.arg == "reverse":
                 if not (isinstance(kw.value, ast.Constant) and isinstance(kw.value.value, bool)):
-                    self.bad(st, "`.sort(reverse=...)` needs a literal bool")
+                    self.bad(st, "`%s(reverse=...)` needs a literal bool" % what)
                 reverse = kw.value.value
             else:
-                self.bad(st, "`.sort` keyword `%s`" % kw.arg)
+                self.bad(st, "`%s` keyword `%s`" % (what, kw.arg))
         if key == "len":
-            if not (lst.type[1] == STR or lst.type[1][0] in ("list", "set", "dict")):
-                self.bad(st, "`key=len` on elements of type %r" % (lst.type[1],))
+            if not (typ_[1] == STR or typ_[1][0] in ("list", "set", "dict")):
+                self.bad(st, "`key=len` on elements of type %r" % (typ_[1],))
             prim = "PyP.sortByKeyDesc" if reverse else "PyP.sortByKeyAsc"
-            return "(%s List.length %s)" % (prim, lst.lean), lst.type
-        if not self.orderable(lst.type[1]):
-            self.bad(st, "`.sort()` of elements of type %r" % (lst.type[1],))
+            return "(%s List.length %s)" % (prim, lean), typ_
+        if not self.orderable(typ_[1]):
+            self.bad(st, "`%s()` of elements of type %r" % (what, typ_[1]))
         if reverse:
-            self.bad(st, "`.sort(reverse=True)` without `key=len`")
-        return "(PyP.sorted %s)" % lst.lean, lst.type
+            self.bad(st, "`%s(reverse=True)` without `key=len`" % what)
+        return "(PyP.sorted %s)" % lean, typ_
 
     def destructure(self, target, base, t, binds, at):
         if isinstance(target, ast.Name):
@@ -1038,6 +1046,9 @@ class PatTranslator(TF.FuncTranslator):
         for n in ast.walk(node):
             if isinstance(n, ast.Name) and n.id in RESERVED:
                 self.bad(n, "the name `%s` is reserved by the translator" % n.id)
+            if (isinstance(n, ast.Name) and isinstance(n.ctx, ast.Store) or isinstance(n, ast.arg)) and \
+                    (n.id if isinstance(n, ast.Name) else n.arg) in ("len", "sorted", "list", "dict", "set", "int", "re"):
+                self.bad(n, "a local name shadows a builtin the translator interprets")
             if isinstance(n, (ast.FunctionDef, ast.Lambda, ast.AsyncFunctionDef)) and n is not node:
                 self.bad(n, "nested functions / lambdas")
             if isinstance(n, (ast.Global, ast.Nonlocal, ast.Try, ast.With)):
